@@ -90,3 +90,9 @@ pub struct ExStdMutex<T: ?Sized>(std::sync::Mutex<T>);
 // Arc::clone: another handle to the SAME shared object (std docs: "creates another pointer to the same allocation"). Trusted.
 pub assume_specification<T: ?Sized, A: core::alloc::Allocator + Clone>[<std::sync::Arc<T, A> as Clone>::clone](a: &std::sync::Arc<T, A>) -> (r: std::sync::Arc<T, A>)
     ensures r == *a;
+
+// ---- u128::overflowing_add (core documentation: wrapping sum and whether it wrapped; never panics) ----
+pub assume_specification [u128::overflowing_add] (a: u128, b: u128) -> (r: (u128, bool))
+    ensures
+        a + b <= u128::MAX ==> r.0 == a + b && !r.1,
+        a + b > u128::MAX ==> r.0 == a + b - u128::MAX - 1 && r.1;
